@@ -49,6 +49,13 @@ func runX06(rc *RunCtx) {
 	}
 	A := func(i int) string { return c.Accs[i].Bech }
 	c.DeliverAs(8, &rnstypes.MsgRegisterName{Creator: A(8), Name: "referrer.jkl", Years: 1, Data: "{}"})
+	// a name with several records, some of them deleted again (the stored record list is rebuilt on delete)
+	recs := []string{"app", "mail", "wiki", "shop", "cdn", "dev"}
+	for _, rname := range recs[:4+rc.Intn(3)] {
+		c.DeliverAs(8, &rnstypes.MsgAddRecord{Creator: A(8), Name: "referrer.jkl", Value: A(rc.Intn(8)), Data: "{}", Record: rname})
+	}
+	c.DeliverAs(8, &rnstypes.MsgDelRecord{Creator: A(8), Name: recs[rc.Intn(3)] + ".referrer.jkl"})
+	c.DeliverAs(8, &rnstypes.MsgUpdate{Creator: A(8), Name: "referrer.jkl", Data: `{"k":"v"}`})
 	nG := 3 + rc.Intn(3)
 	for i := 0; i < nG; i++ {
 		ref := ""
